@@ -1,6 +1,7 @@
 import Resolvo.Drv.Parse
 import Resolvo.Snapshot
 import Resolvo.Enc.Reference
+import Resolvo.Oracles
 namespace Resolvo.Drv
 open Resolvo Resolvo.Snap
 
@@ -82,6 +83,19 @@ def runSnapshot (lines : List String) : List String :=
   let o6 := if adds.isEmpty then
       (if (live.startsWith "ok") != ((res "viasnap").startsWith "ok") then [s!"oracle-fail C16 verdict: live `{live}` vs snapshot `{res "viasnap"}`"] else [])
     else []
-  o1 ++ o2 ++ o3 ++ o4 ++ o5 ++ o6 ++ [s!"info snapshot solvables {sn.solvables.length} vs {sn.versionSets.length} added {gotIds.length} solvable {solvable}"]
+  -- 4. the provider's candidate preference order is preserved: when the first choices of the live data (sort order,
+  --    union members as the live provider lists them) are mutually compatible, the snapshot must give exactly them (C07)
+  let o7 := if !P'.soft.isEmpty then [] else
+    match preferredConsistent U' P' with
+    | some pref =>
+      (["viasnap", "viaserde"].flatMap (fun tag =>
+        let r := res tag
+        if r.startsWith "ok" then
+          let sol := ((words r).drop 1).map nat!
+          if sameSet sol pref then [] else
+            [s!"oracle-fail C16 preference-lost: the live provider's first choices [{nl pref}] are mutually compatible, but solving through the snapshot ({tag}) gives [{nl sol}]"]
+        else [])) ++ ["info preferred-consistent 1"]
+    | none => []
+  o1 ++ o2 ++ o3 ++ o4 ++ o5 ++ o6 ++ o7 ++ [s!"info snapshot solvables {sn.solvables.length} vs {sn.versionSets.length} added {gotIds.length} solvable {solvable}"]
 
 end Resolvo.Drv
